@@ -2,7 +2,7 @@
 from __future__ import annotations
 
 import ast
-from typing import Optional
+from typing import Any, Optional
 
 from ..fieldmodel import build_tree_classes, single_return_expr
 from ..model import AnalysisError, DescriptorDecl, FuncInfo, Program, dotted, norm, self_attr, stmts_no_doc, walk_no_nested
@@ -42,11 +42,26 @@ def rule_ind_flow(ctx: RuleContext, p: Program, rid: str) -> None:
     if first:
         fv = norm(first[0].targets[0])
         src = norm(first[0].value.args[0]) if first[0].value.args else ''  # type: ignore[union-attr]
-        iterates_items = src in ('super().__iter__()', 'iter(self)', 'iter(super())')
-        rets = {norm(r.value) for r in walk_no_nested(gi.node) if isinstance(r, ast.Return)}
-        guard = [i for i in body if isinstance(i, ast.If)]
-        ok = iterates_items and rets == {f'{fv}.indent', 'self._default_indent_getter()'} and len(guard) == 1 \
-            and norm(guard[0].test) in (f'{fv} is None',) and norm(guard[0].body[0].value) == 'self._default_indent_getter()'  # type: ignore[attr-defined]
+        dflt = len(first[0].value.args) > 1 and norm(first[0].value.args[1]) == 'None'  # type: ignore[union-attr]
+        iterates_items = src in ('super().__iter__()', 'iter(self)', 'iter(super())', 'iter(super().__iter__())')
+        from ..walker import Walker
+        got: set[tuple[Any, str]] = set()
+
+        def transfer(s: Any, ev: tuple) -> list:
+            if ev[0] == 'assume':
+                t, truth = ev[1], ev[2]
+                if isinstance(t, ast.Compare) and norm(t.left) == fv and isinstance(t.comparators[0], ast.Constant) \
+                        and t.comparators[0].value is None:
+                    isnone = truth if isinstance(t.ops[0], ast.Is) else not truth
+                    return [isnone] if s is None or s == isnone else []
+                if norm(t) == fv:
+                    return [not truth] if s is None or s == (not truth) else []
+            if ev[0] == 'return':
+                got.add((s, norm(ev[1].value)))
+            return [s]
+
+        Walker(transfer).run(body, [None])
+        ok = iterates_items and dflt and got == {(False, f'{fv}.indent'), (True, 'self._default_indent_getter()')}
     ctx.check(ok, rid, 'models.meta_item_internal:RepeatedMetaItemWrapper._get_indent', 'first sibling else default',
               '_get_indent does not return the first existing meta item\'s indent, falling back to the default getter only when '
               'there is none', gi.where, note='next(iter(items), None) -> its .indent, else default getter')
